@@ -3,6 +3,7 @@
    Model/Load.v (one per debug mode, as the library has three closure factories per container). *)
 From Coq Require Import List ZArith Bool String.
 From AV Require Import Model.Val Model.Load Proofs.LoadProofs Proofs.ModesProofs.
+From AV Require Model.Layout Model.CrownSem Proofs.CrownModes.
 Import ListNotations.
 
 (* all three modes accept the same data and return the same value, for every type, datum and coercion mode *)
@@ -48,3 +49,12 @@ Example C06_first_among_all_example :
   exists e1 e2, load U First false t v = Err e1 /\ load U All false t v = Err e2 /\
                 List.length (eleaves e1) = 1%nat /\ List.length (eleaves e2) = 2%nat /\ incl (eleaves e1) (eleaves e2).
 Proof. vm_compute. do 2 eexists. repeat split; try reflexivity. intros x [<-|[]]. left. reflexivity. Qed.
+
+(* ---- generated model loaders (Model/CrownSem.v: one interpreter that stops at the first error for DISABLE / FIRST, one
+   that keeps going and collects for ALL): for every crown - any nesting of mapping and list nodes -, extra policy and
+   datum, the three debug modes accept the same data and deliver the same fields and the same collected extras ---- *)
+Theorem C06_model_loader_modes_agree : forall (info : CrownSem.finfos) (pol : Layout.policy) (c : Layout.crown) (d : CrownSem.pv)
+  (m1 m2 : CrownSem.mode),
+  CrownModes.loaded (CrownSem.load info pol m1 c d) = CrownModes.loaded (CrownSem.load info pol m2 c d).
+Proof. exact CrownModes.model_loader_modes_agree. Qed.
+Print Assumptions C06_model_loader_modes_agree.
